@@ -423,6 +423,14 @@ struct tuple_element<I, ::cntgs::BasicContiguousElement<Allocator, Parameter...>
 {
 };
 
+// get<I>() of a const element yields const access. The generic tuple_element<I, const T> only adds a top-level const,
+// which is lost on the reference and span types involved.
+template <std::size_t I, class Allocator, class... Parameter>
+struct tuple_element<I, const ::cntgs::BasicContiguousElement<Allocator, Parameter...>>
+    : std::tuple_element<I, ::cntgs::BasicContiguousReference<true, Parameter...>>
+{
+};
+
 template <class Allocator, class... Parameter>
 struct tuple_size<::cntgs::BasicContiguousElement<Allocator, Parameter...>>
     : std::integral_constant<std::size_t, sizeof...(Parameter)>
